@@ -532,7 +532,11 @@ func (ru *Rule) errorsFail(fn *ssa.Function, tolerated ...string) int {
 					}
 				}
 				if !isNilConst(rv) {
-					continue // (only the plain `return .., nil` counts as success here: anything else may be the failure in another form)
+					// ... or the tail call of an ordinary function or method that is not handed the error in any form
+					// (`return c.Conn.Write(out)`): its verdict has nothing to do with the failure at hand
+					if !independentTailCall(rv, call, isV) {
+						continue // (anything else may be the failure in another form)
+					}
 				}
 				w, _ := (&Cut{Fn: fn, From: []ssa.Instruction{call}, Target: isInstr(ret), EdgeCut: anyEdge(edgeNil(isV, true), failCut(ret)), StopAtFrom: true}).Run(c)
 				if w != "" {
@@ -621,4 +625,70 @@ func (ru *Rule) lookupOrCreate(fn *ssa.Function, mapKey, ctorKey string, always 
 		w, n := (&Cut{Fn: fn, Target: isRetInstr, Sep: inSet(calls)}).Run(c)
 		ru.Check(w == "" && len(calls) >= 1, fnKey(fn)+": every return passes "+calleeShort0(k), fn.Pos(), n+1, "", "the caller's reference is not counted: the scope can be collected under it", w)
 	}
+}
+
+// independentTailCall: rv is the error result of a call other than `from`, to a declared function or an interface
+// method (not a function literal, not ctx.Err / errors.* / fmt.*), none of whose arguments carries the error at
+// hand (directly, wrapped by a call, or through a variadic list; three levels).
+func independentTailCall(rv ssa.Value, from *ssa.Call, isV func(ssa.Value) bool) bool {
+	var call *ssa.Call
+	switch x := strip(rv).(type) {
+	case *ssa.Call:
+		call = x
+	case *ssa.Extract:
+		call, _ = x.Tuple.(*ssa.Call)
+	}
+	if call == nil || call == from {
+		return false
+	}
+	k := calleeKey(call)
+	if k == "" || k == "(context.Context).Err" || strings.HasPrefix(k, "errors.") || strings.HasPrefix(k, "fmt.") || k == "context.Cause" {
+		return false
+	}
+	if !call.Call.IsInvoke() {
+		g := call.Call.StaticCallee()
+		if g == nil || g.Parent() != nil {
+			return false // a function value or literal: may be the failure path's own helper
+		}
+	}
+	var carries func(v ssa.Value, d int) bool
+	carries = func(v ssa.Value, d int) bool {
+		if d > 3 {
+			return true // (too deep to tell: assume it does)
+		}
+		if isV(strip(v)) || derivesFrom(v, isV) {
+			return true
+		}
+		switch x := strip(v).(type) {
+		case *ssa.Call:
+			for _, a := range x.Call.Args {
+				if carries(a, d+1) {
+					return true
+				}
+			}
+		case *ssa.Slice:
+			if al, ok := x.X.(*ssa.Alloc); ok {
+				for _, ref := range *al.Referrers() {
+					if ia, isIA := ref.(*ssa.IndexAddr); isIA {
+						for _, r2 := range *ia.Referrers() {
+							if st, isSt := r2.(*ssa.Store); isSt && st.Addr == ssa.Value(ia) && carries(st.Val, d+1) {
+								return true
+							}
+						}
+					}
+				}
+			}
+		case *ssa.MakeInterface:
+			return carries(x.X, d+1)
+		case *ssa.ChangeInterface:
+			return carries(x.X, d+1)
+		}
+		return false
+	}
+	for _, a := range call.Call.Args {
+		if carries(a, 0) {
+			return false
+		}
+	}
+	return true
 }
